@@ -20,7 +20,9 @@ Print Assumptions C17_fire_time.
 (* ---- opening handshake ----
    F = openF c is the fire time of the timer armed by connectionMade, D = t_start + openHandshakeTimeout the nominal
    deadline:  D - 1000 < F <= D.
-   Silent peer: as long as no handshake (good or bad) and no TCP drop arrives, the first Tick reaching F aborts the
+   A client behind an explicit proxy (c_proxy) starts in PROXY_CONNECTING; the proxy's 2xx answer (EProxyOk, not a
+   qualifying reaction: [no_open_reaction] admits it) moves it to CONNECTING and the SAME timer keeps running.
+   Silent peer: as long as no handshake (good or bad), no proxy refusal and no TCP drop arrives, the first Tick reaching F aborts the
    connection AT time F, the state is CLOSED for ever and wasOpenHandshakeTimeout stays set; when our drop is
    delivered onClose(False, 1006, <opening handshake timeout>) is reported. *)
 Theorem C17_silent_open : forall c evs1 t evs2,
@@ -37,8 +39,8 @@ Theorem C17_open_deadline : forall c,
 Proof. exact openF_bounds. Qed.
 Print Assumptions C17_open_deadline.
 
-Theorem C17_silent_open_report : forall c n t, n <= openF c -> openF c <= t ->
-  snd (step c (fst (step c (conn_state c n) (ETick t))) EOwnDrop) =
+Theorem C17_silent_open_report : forall c n p t, n <= openF c -> openF c <= t ->
+  snd (step c (fst (step c (conn_state c n p) (ETick t))) EOwnDrop) =
   [(N.max (openF c) t, CbClose false (Some code_abnormal_close) None ROpenTO)].
 Proof. exact open_timeout_report. Qed.
 Print Assumptions C17_silent_open_report.
@@ -48,6 +50,7 @@ Print Assumptions C17_silent_open_report.
 Theorem C17_responsive_open : forall c evs1 evs2,
   0 < openHandshakeTimeout c ->
   Forall no_open_reaction evs1 -> Forall (tick_before (openF c)) evs1 ->
+  proxyPending (fst (run c evs1)) = false ->
   let r := run c (evs1 ++ EHandshake :: evs2) in
   wasOpenTO (fst r) = false /\ (1 <= rank (st (fst r)))%nat.
 Proof. exact responsive_open. Qed.
@@ -115,34 +118,34 @@ Proof. exact tick_inert. Qed.
 Print Assumptions C17_dead_after_close.
 
 Example C17_witness_ping_timeout_after_close_inert :
-  let c := mkCfg Server false false 2000 1000 0 1000 2000 12 true 375 in
+  let c := mkCfg Server false false 2000 1000 0 1000 2000 12 true 375 false in
   snd (run c [EHandshake; ETick 1000; EPeerClose (Some (1000, None)) []; ETick 3000; EOwnDrop]) =
   [(375, WHttp); (375, CbOpen); (375, IsOpen); (1000, WPing (Some 1)); (1000, WClose OReply (Some 1000) None);
    (1000, IsClosed); (1000, Lose); (3000, CbClose true (Some 1000) None RNone)].
 Proof. vm_compute. reflexivity. Qed.
 
 Example C17_witness_open_timeout :
-  let c := mkCfg Server true false 2000 1000 0 0 0 12 true 375 in
+  let c := mkCfg Server true false 2000 1000 0 0 0 12 true 375 false in
   openF c = 2000 /\
   snd (run c [ETick 1875; ESendPing; ETick 2000; EOwnDrop]) =
   [(2000, IsClosed); (2000, Abort); (2000, CbClose false (Some 1006) None ROpenTO)].
 Proof. vm_compute. auto. Qed.
 
 Example C17_witness_open_in_time :
-  let c := mkCfg Server true false 2000 1000 0 0 0 12 true 375 in
+  let c := mkCfg Server true false 2000 1000 0 0 0 12 true 375 false in
   st (fst (run c [ETick 1375; EHandshake; ETick 9000])) = OPEN.
 Proof. vm_compute. reflexivity. Qed.
 
 (* auto ping: first ping at floor((375+1000)/1000) s, matching pong, next ping one interval after the pong (quantised) *)
 Example C17_witness_ping_periodic :
-  let c := mkCfg Client true false 2000 1000 1000 1000 2000 12 true 375 in
+  let c := mkCfg Client true false 2000 1000 1000 1000 2000 12 true 375 false in
   snd (run c [EHandshake; ETick 1000; ETick 1125; EPeerPong true; ETick 2000; ETick 2500; EPeerPong true; ETick 3000]) =
   [(375, WHttp); (375, CbOpen); (375, IsOpen); (1000, WPing (Some 1)); (1125, CbPong); (2000, WPing (Some 2));
    (2500, CbPong); (3000, WPing (Some 3))].
 Proof. vm_compute. reflexivity. Qed.
 
 Example C17_witness_ping_timeout :
-  let c := mkCfg Server true false 2000 1000 0 1000 2000 12 true 375 in
+  let c := mkCfg Server true false 2000 1000 0 1000 2000 12 true 375 false in
   snd (run c [EHandshake; ETick 1000; EPeerPong false; ETick 3000; EOwnDrop]) =
   [(375, WHttp); (375, CbOpen); (375, IsOpen); (1000, WPing (Some 1)); (1000, CbPong); (3000, IsClosed); (3000, Abort);
    (3000, CbClose false (Some 1006) None RPingTO)].
@@ -151,7 +154,7 @@ Proof. vm_compute. reflexivity. Qed.
 (* concrete timelines for the remaining timers (the general statements above cover the drop itself; reason class and
    flags per timer are exercised by the correspondence run on every grid placement) *)
 Example C17_witness_close_timeout_and_reply :
-  let c := mkCfg Server true false 2000 2000 0 0 0 12 true 375 in
+  let c := mkCfg Server true false 2000 2000 0 0 0 12 true 375 false in
   (* silent: close sent at 625, timer fires at floor(2.625) = 2 s <= 2625 *)
   snd (run c [EHandshake; ETick 625; ESendClose (Some 1000) None; ETick 1999; ETick 2000; EOwnDrop]) =
   [(375, WHttp); (375, CbOpen); (375, IsOpen); (625, WClose OApi (Some 1000) None); (2000, IsClosed); (2000, Abort);
@@ -164,7 +167,7 @@ Example C17_witness_close_timeout_and_reply :
 Proof. vm_compute. auto. Qed.
 
 Example C17_witness_server_drop_timeout :
-  let c := mkCfg Client true false 2000 2000 1000 0 0 12 true 0 in
+  let c := mkCfg Client true false 2000 2000 1000 0 0 12 true 0 false in
   snd (run c [EHandshake; ESendClose (Some 1000) None; ETick 375; EPeerClose (Some (1000, None)) []; ETick 1374; ETick 1375; EOwnDrop]) =
   [(0, WHttp); (0, CbOpen); (0, IsOpen); (0, WClose OApi (Some 1000) None); (1375, IsClosed); (1375, Abort);
    (1375, CbClose false (Some 1006) None RDropTO)].
@@ -175,7 +178,7 @@ Proof. unfold drop_kind. auto. Qed.
 
 (* non-vacuity of C17_timeout_fires: a ping is outstanding, its timeout call pending with fire time 3000 *)
 Example C17_witness_ping_timeout_pending :
-  let c := mkCfg Server true false 2000 1000 0 1000 2000 12 true 375 in
+  let c := mkCfg Server true false 2000 1000 0 1000 2000 12 true 375 false in
   let s := fst (run c [EHandshake; ETick 1000]) in
   st s = OPEN /\ pingPending s = Some 1 /\ map te_time (timers s) = [3000] /\
   st (fst (step c s (ETick 3000))) = CLOSED /\ ncr (fst (step c s (ETick 3000))) = RPingTO.
@@ -184,15 +187,24 @@ Proof. vm_compute. auto 10. Qed.
 (* the responsive peer: a matching pong one second before the deadline cancels it; the next ping goes out one
    interval later; a data frame does the same when autoPingRestartOnAnyTraffic is set *)
 Example C17_witness_pong_in_time :
-  let c := mkCfg Server true false 2000 1000 0 1000 2000 12 true 375 in
+  let c := mkCfg Server true false 2000 1000 0 1000 2000 12 true 375 false in
   let s := fst (run c [EHandshake; ETick 1000; ETick 2000; EPeerPong true]) in
   st s = OPEN /\ pingPending s = None /\ map te_time (timers s) = [3000] /\
   snd (step c s (ETick 3000)) = [(3000, WPing (Some 2))].
 Proof. vm_compute. auto 10. Qed.
 
 Example C17_witness_restart_on_traffic :
-  let c := mkCfg Server true false 2000 1000 0 1000 2000 12 true 375 in
+  let c := mkCfg Server true false 2000 1000 0 1000 2000 12 true 375 false in
   let on := fst (run c [EHandshake; ETick 1000; ETick 1500; EPeerData]) in
-  let off := fst (run (mkCfg Server true false 2000 1000 0 1000 2000 12 false 375) [EHandshake; ETick 1000; ETick 1500; EPeerData]) in
+  let off := fst (run (mkCfg Server true false 2000 1000 0 1000 2000 12 false 375 false) [EHandshake; ETick 1000; ETick 1500; EPeerData]) in
   (pingPending on = None /\ map te_time (timers on) = [2000]) /\ (pingPending off = Some 1 /\ map te_time (timers off) = [3000]).
 Proof. vm_compute. auto 10. Qed.
+
+(* client behind a proxy: the proxy answers at 1250, the server behind it stays silent: dropped at the ORIGINAL
+   deadline (fire time 2000 of the timer armed at connectionMade = 375 with openHandshakeTimeout 2 s) *)
+Example C17_witness_proxy_silent_server :
+  let c := mkCfg Client true false 2000 1000 1000 0 0 12 true 375 true in
+  openF c = 2000 /\
+  snd (run c [ETick 1250; EProxyOk; ETick 1999; ETick 2000; EOwnDrop]) =
+  [(375, WHttp); (1250, WHttp); (2000, IsClosed); (2000, Abort); (2000, CbClose false (Some 1006) None ROpenTO)].
+Proof. vm_compute. auto. Qed.
